@@ -442,7 +442,9 @@ bool Parser::parseCompoundStatement_AtFirst(StatementSyntax*& stmt,
                 return true;
 
             default: {
+                auto tkIdx_AtStmt = curTkIdx_;
                 if (!parseStatement(innerStmt, stmtCtx)) {
+                    noteFailedParse(tkIdx_AtStmt);
                     skipTo(SyntaxKind::CloseBraceToken);
                     continue;
                 }
